@@ -443,6 +443,33 @@ static void arraySweep() {
 	}
 }
 
+// Arrays on both sides of an index-type boundary (`UCapacity<N>`: uint8_t up to 255, uint16_t above): bulk append of a
+// narrow array into a wide one and of a wide one into a narrow one, at vacant-room values around multiples of 256
+// (a room computed in the narrower index type wraps there).
+template <unsigned N, unsigned M>
+static void mixedAppend(unsigned fill, unsigned k) {
+	Rng rng(77u * N + 13u * M + fill + 1000u * k);
+	DArrDriver<N> d; d.start();
+	while (unsigned(d.shadow.size()) + 4 <= fill) d.template append<4>(rng, 4);
+	while (unsigned(d.shadow.size()) < fill) d.emplace(int(d.shadow.size()));
+	const unsigned room = N - unsigned(d.shadow.size());
+	d.template append<M>(rng, k < room ? (k < M ? k : M) : (room < M ? room : M));
+	d.count(); d.iter();
+}
+
+static void wideArraySweep() {
+	// wide destination, narrow source: vacant room 300, 260, 257, 256, 255, 44, 4
+	mixedAppend<300, 4>(0, 4);    mixedAppend<300, 4>(40, 4);   mixedAppend<300, 4>(43, 4);  mixedAppend<300, 4>(44, 4);
+	mixedAppend<300, 4>(45, 4);   mixedAppend<300, 4>(256, 4);  mixedAppend<300, 4>(296, 4);
+	mixedAppend<300, 200>(0, 200); mixedAppend<300, 200>(44, 200); mixedAppend<300, 200>(100, 200);
+	mixedAppend<256, 4>(0, 3);    mixedAppend<256, 9>(0, 9);    mixedAppend<256, 255>(0, 255); mixedAppend<256, 255>(1, 255);
+	mixedAppend<512, 4>(0, 4);    mixedAppend<512, 4>(256, 4);  mixedAppend<512, 255>(0, 255); mixedAppend<512, 255>(257, 255);
+	mixedAppend<600, 8>(88, 8);   mixedAppend<600, 8>(344, 8);
+	// same-width wide arrays, and a wide source into a narrow destination
+	mixedAppend<300, 300>(0, 300); mixedAppend<300, 300>(44, 256); mixedAppend<512, 300>(212, 300);
+	mixedAppend<8, 300>(0, 8);    mixedAppend<9, 256>(4, 5);    mixedAppend<255, 256>(0, 255); mixedAppend<200, 300>(100, 100);
+}
+
 int main(int argc, char** argv) {
 	if (argc < 3) { std::fprintf(stderr, "usage: %s <seed> <count> [random|exhaustive|ooc]\n", argv[0]); return 2; }
 	const uint64_t seed = std::strtoull(argv[1], nullptr, 10);
@@ -457,11 +484,14 @@ int main(int argc, char** argv) {
 		runAllRandom<1>(rng, count); runAllRandom<2>(rng, count); runAllRandom<3>(rng, count);
 		runAllRandom<4>(rng, count); runAllRandom<5>(rng, count); runAllRandom<6>(rng, count);
 		runAllRandom<7>(rng, count); runAllRandom<8>(rng, count); runAllRandom<9>(rng, count);
+		{ DArrDriver<300> d; d.randomRun(rng, count / 8 + 1); }
+		wideArraySweep();
 	} else if (mode == "exhaustive") {
 		const unsigned depth = count < 1000 ? 6 : 7;
 		poolExhaustive<1>(depth + 2); poolExhaustive<2>(depth); poolExhaustive<3>(depth);
 		arraySweep<1>(); arraySweep<2>(); arraySweep<3>(); arraySweep<4>(); arraySweep<5>();
 		arraySweep<6>(); arraySweep<7>(); arraySweep<8>(); arraySweep<9>();
+		wideArraySweep();
 	} else if (mode == "ooc") {
 		std::printf("# OUT-OF-CONTRACT MODE: removes of dead slots; not part of the property\n");
 		runOoc<1>(rng, count); runOoc<2>(rng, count); runOoc<3>(rng, count); runOoc<5>(rng, count); runOoc<9>(rng, count);
